@@ -16,12 +16,50 @@ representations), or something compared by identity (objects, symbols; booleans/
 inductive Key where
   | num (a : Num)
   | str (s : C06.Str)
+  | big (i : Int)          -- *valueBigInt: a math/big.Int (sign + normalised magnitude; there is no −0n)
   | other (id : Nat)
+
+/-- `(*big.Int).Bytes()`: big-endian magnitude without leading zero bytes (empty for 0). -/
+def beBytes (n : Nat) : List UInt8 :=
+  if h : n = 0 then [] else beBytes (n / 256) ++ [UInt8.ofNat (n % 256)]
+termination_by n
+decreasing_by omega
+
+/-- What `valueBigInt.hash` writes to the hasher (builtin_bigint.go:111-123): a sign byte, then `Bytes()`. -/
+def bigHashPre (i : Int) : List UInt8 := (if i < 0 then 1 else 0) :: beBytes i.natAbs
+
+def fromBE (l : List UInt8) : Nat := l.foldl (fun acc b => acc * 256 + b.toNat) 0
+
+theorem fromBE_beBytes (n : Nat) : fromBE (beBytes n) = n := by
+  induction n using Nat.strongRecOn with
+  | _ n ih =>
+    unfold beBytes
+    by_cases h : n = 0
+    · simp [h, fromBE]
+    · simp only [h, dite_false]
+      unfold fromBE
+      rw [List.foldl_append]
+      have := ih (n / 256) (by omega)
+      unfold fromBE at this
+      rw [this]
+      simp only [List.foldl_cons, List.foldl_nil]
+      have : (UInt8.ofNat (n % 256)).toNat = n % 256 := by
+        simp [UInt8.toNat_ofNat']
+      rw [this]; omega
+
+/-- Distinct BigInts write distinct bytes (so only a maphash collision can put them in one bucket). -/
+theorem bigHashPre_injective {i j : Int} (h : bigHashPre i = bigHashPre j) : i = j := by
+  unfold bigHashPre at h
+  simp only [List.cons.injEq] at h
+  obtain ⟨h1, h2⟩ := h
+  have h3 : i.natAbs = j.natAbs := by rw [← fromBE_beBytes i.natAbs, ← fromBE_beBytes j.natAbs, h2]
+  by_cases hi : i < 0 <;> by_cases hj : j < 0 <;> simp [hi, hj] at h1 <;> omega
 
 /-- Producers hand out canonical numbers (C05 `Canon`) and normal-form strings (C06 `NF`). -/
 def Key.WF : Key → Prop
   | .num a => Num.Canon a
   | .str s => C06.NF s
+  | .big _ => True
   | .other _ => True
 
 /-- map.go:27-29 / 41-43: `if key == _negativeZero { key = intToValue(0) }`. -/
@@ -33,6 +71,7 @@ def normKeyK : Key → Key
 def sameAsK : Key → Key → Bool
   | .num a, .num b => Num.sameAs a b
   | .str s, .str t => C06.sameAs s t
+  | .big i, .big j => i == j               -- builtin_bigint.go:55: Cmp == 0
   | .other i, .other j => i == j
   | _, _ => false
 
@@ -47,6 +86,7 @@ deriving DecidableEq
 def hashPreK : Key → HashIn
   | .num a => .word (Num.hash a)
   | .str s => .bytes (C06.hashPre s)
+  | .big i => .bytes (bigHashPre i)
   | .other i => .addr i
 
 /-- The hash itself, for an ARBITRARY maphash function `mh` and address/constant map `ph`. -/
@@ -60,6 +100,7 @@ def hashK (mh : List UInt8 → Nat) (ph : Nat → Nat) (k : Key) : Nat :=
 def svz : Key → Key → Bool
   | .num a, .num b => Num.specSameValueZero a.toF64 b.toF64
   | .str s, .str t => decide (C06.units s = C06.units t)
+  | .big i, .big j => i == j               -- BigInt::sameValueZero = BigInt::equal
   | .other i, .other j => i == j
   | _, _ => false
 
@@ -67,12 +108,14 @@ def svz : Key → Key → Bool
 inductive KeyClass where
   | num (n : Num)
   | str (u : List UInt16)
+  | big (i : Int)
   | other (id : Nat)
 deriving DecidableEq
 
 def cls : Key → KeyClass
   | .num a => .num (Num.normKey a)
   | .str s => .str (C06.units s)
+  | .big i => .big i
   | .other i => .other i
 
 theorem specSameValue_refl (x : F64) : Num.specSameValue x x = true := by
@@ -104,6 +147,7 @@ theorem hash_respects_svz' {a b : Key} (ha : a.WF) (hb : b.WF) (h : svz a b = tr
   cases a <;> cases b <;> simp [normKeyK, hashPreK, svz, Key.WF] at *
   · rw [(normKey_eq_iff_svz ha hb).2 h]
   · exact (C06.hashpre_iff_units ha hb).2 h
+  · rw [h]
   · exact h
 
 end GojaModel.C18
